@@ -76,13 +76,13 @@ META = {
         "Sequential histories (resolve, clock steps at ttl-1/ttl/ttl+1, zone changes incl. CNAME repointing, failure on/off, cache resizing) on a virtual clock (hook VerifSetClock) against a versioned fake DoH zone whose answers identify the data version "
         "they came from, judged by an exact model with the server's query log (never stale, failures not cached, re-query after expiry, no upstream query within TTL; smallest TTL over ALL records of the response incl. CNAMEs and extras, 0 = uncacheable); "
         "concurrent phases of 2..16 goroutines with held/released upstream queries whose recorded call/return histories are checked per (name, qtype) with porcupine against a nondeterministic cache model; a deadlock monitor reports calls that are all parked on a lock inside the library; the same workload under the race detector (stage race)." + HELD,
-        "Clock and zone change only at barriers in the concurrent part; porcupine Unknown (60 s) would be inconclusive; responses without any record may be cached up to 300 s.",
+        "Clock and zone change only at barriers in the concurrent part; porcupine Unknown (60 s) would be inconclusive; responses without any record may be cached up to 300 s (less when the SOA of a negative answer says so). After a failure blip inside a phase the answers fetched by the calls that then succeeded must be in the cache (no second upstream query within their TTL).",
         "runtime monitor: model-based history checking (exact model + porcupine linearizability) over recorded call logs, virtual clock hook, race detector"),
     "C17": M("exploration", "§6 C17",
         "Runs Dial against generated DNS universes served by a fake DoH server with a recording DialFunc that returns scripted outcomes (ok, error, ECH rejection with/without retry configs, repeated rejection); an oracle over the invocation log checks: "
         "no attempt without an ECH list under RequireECH, caller list/ServerName never replaced, list provenance per HTTPS record (computed from the zone model, not from the code under test), ServerName = the caller's host, exactly one retry "
         "to the same address with exactly the retry configs, no leak of a retry list to later targets, caller's tls.Config unchanged; address forms include host, host:port, https:// URIs and IP literals." + HELD,
-        "Lenient where the statement is silent (tied priorities, target order, empty non-nil list only counted).",
+        "Lenient where the statement is silent (tied priorities, target order, an empty non-nil list in the caller's config may be kept or treated as absent). A list of zero bytes (ech= without value in the zone, empty caller slice) counts as no list for RequireECH.",
         "runtime monitor: DialFunc argument tap + provenance oracle against a zone model"),
     "C11": M("exploration", "§6 C11",
         "Runs the real codec on seed-determined specs covering all ids, every public-name length 1..255, key lengths and suite lists; an independent section-4 parser and live crypto/tls client/server ECH handshakes act as oracles; "
@@ -101,8 +101,8 @@ META = {
         "runtime monitor: differential testing against an independent codec in both directions"),
     "C14": M("exploration", "§6 C14",
         "Resolves generated zone universes (alias chains and loops, CNAME chains, service records, error rcodes, poisoned answers owned by other names) through a fake DoH server built on an independent encoder that logs every query as seen on the wire; "
-        "a relational oracle checks query-name legality and provenance, the query bound, record ownership/priority order, address attribution, rcode mapping and the treatment of over-long names. Every fourth case runs on a Resolver with a history (same name resolved in another universe, virtual clock moved beyond every TTL); IP literals in every spelling and names with an empty label must never reach the wire." + HELD,
-        "Relational (not exact) on long alias chains; mixed alias/service RRsets are not generated; cache disabled except in the cases with a history.",
+        "a relational oracle checks query-name legality and provenance, the query bound, record ownership/priority order, address attribution, rcode mapping and the treatment of over-long names. Every fourth case runs on a Resolver with a history (same name resolved in another universe, virtual clock moved beyond every TTL); IP literals in every spelling and names with an empty label must never reach the wire. Universes also vary what carries no meaning: letter case of owners, FQDN spelling, the order of records inside the answer section (CNAME after its target's records), alias and service records mixed in one RRSet in any order, and the HTTP framing of the response (with or without Content-Length)." + HELD,
+        "Relational (not exact) on long alias chains; cache disabled except in the cases with a history.",
         "runtime monitor: server-side query log + relational oracle against a zone model"),
     "C15": M("exploration", "§6 C15",
         "Compares the sequence yielded by Targets with a reference implementation written from the statement for random ResolveResults x six networks x early termination points, and deep-compares the result "
@@ -113,11 +113,11 @@ META = {
         "Drives request sequences of one http.Client over Transport against a fake DoH server, three local TLS servers (HTTP/2, real certificates; two origins share an address and a certificate), a plaintext server and a fake HTTP/3 round-tripper, "
         "with a DialFunc tap that records arguments and performs real handshakes; server-side logs (connection ids, TLS state, Host), tap logs and a table model of the h3 choice check: no plaintext, http->https upgrade, ServerName = URL host and certificate "
         "verification against it, original Host, no pooled connection shared across origins, h3 decision, protocol-compatible dial targets, resp.Request identity." + HELD,
-        "Lenient where the statement is silent (https on port 80, address order); CNAMEs and alias loops not generated here (C14).",
+        "Lenient where the statement is silent (https://host:80, address order, sets mixing alias and service records); an http URL that is served over TLS must be dialled at 443 (RFC 9460 9.5), and an origin whose only HTTPS record is an alias to a name with addresses must be upgraded. CNAMEs and alias loops not generated here (C14).",
         "runtime monitor: server-side request/connection logs + DialFunc tap against a decision-table model"),
     "C20": M("exploration", "§6 C20",
         "Runs histories of publishes against a fake Cloudflare API (pagination, PATCH merge, failure injection, full request log) and compares results, request log and the stored records with a model store: one result per target in order, "
-        "only the ech parameter changed, no PATCH when current, records on later pages found, non-targets untouched, failures isolated; every third history the API omits JSON members that hold a zero value." + HELD,
+        "only the ech parameter changed, no PATCH when current, records on later pages found, non-targets untouched, failures isolated; every third history the API omits JSON members that hold a zero value; every fifth history a zone is absent during the first publishes and appears between two of them. An existing record is never reported not-found because the API failed." + HELD,
         "The fake API follows Cloudflare's documented envelope (count = items on this page); HTTPS names unique per zone.",
         "runtime monitor: request-log and store-diff oracle against a model of the API"),
 }
